@@ -56,6 +56,7 @@ def _run(V, work, tier):
         raise MachineryError("pathfs driver failed: " + err[-2000:])
     real = {}
     sessions = []
+    dots = []
     ncases = 0
     nserved = 0
     for line in out.splitlines():
@@ -65,6 +66,9 @@ def _run(V, work, tier):
             continue
         if r.get("session"):
             sessions.append(r)
+            continue
+        if r.get("dotroot"):
+            dots.append(r)
             continue
         nserved += 1
         k = key(r)
@@ -91,6 +95,16 @@ def _run(V, work, tier):
         if got != want and got != "refused":
             V.add(None, "in a session (order %d, step %d) the file %s loading %s got %s, the specification says %s: the loading context is stale"
                   % (r["order"], r["step"], r["ctx"], "/".join(r["comps"]), got, want), r)
+    # a relative root directory (".", "./", "sub/..") with the process standing in the root: whatever is served is what the
+    # specification serves for the same location under the absolute root (the directory of a context-less load is the root)
+    for r in dots:
+        ctx = "main" if r["ctx"] == "none" else r["ctx"]
+        want = model.get(("root", "root", "rel", ctx, "/".join(r["comps"])), "refused")
+        if r["marker"] not in inside:
+            V.add(None, "a file outside the root was served under the relative root %r (via %s): location %s (loading context %s) returned %s" % (r["root"], r["via"], "/".join(r["comps"]), r["ctx"], r["marker"]), r)
+        elif want != r["marker"]:
+            V.add(None, "under the relative root %r location %s (context %s) returned %s, the specification says %s" % (r["root"], "/".join(r["comps"]), r["ctx"], r["marker"], want), r)
+    V.coverage["relative_root_served"] = len(dots)
     V.coverage["session_loads"] = len(sessions)
     if len(sessions) < 100 or not any(r["marker"] for r in sessions):
         raise MachineryError("session histories did not run or served nothing (%d records)" % len(sessions))
